@@ -33,7 +33,8 @@ def cases(tier, seed):
     for i in range(n):
         ff = common.FFS[i % 6]
         out.append({"kind": "walk", "w": "frag" if i % 4 == 3 else "synth", "seed": seed * 12007 + i, "ff": ff,
-                    "steps": steps, "p": {"maxlen": 6, "na_prob": 0.15, "waters": [0, 2, 4], "variant_prob": 0.15}})
+                    "steps": steps, "p": {"maxlen": 6, "na_prob": 0.15, "waters": [0, 2, 4], "variant_prob": 0.15,
+                                          "icode_prob": 0.3}})
     nd = 30 if tier == "quick" else 3500
     for i in range(nd):
         out.append({"kind": "dropwater", "w": "frag" if i % 3 == 0 else "synth", "seed": seed * 13001 + i,
@@ -72,6 +73,14 @@ def ident(pq):
 
 def names(pq):
     return [(a["name"], a["resn"]) for a in pq]
+
+
+def _unparsable(line, whitespace):
+    try:
+        pipeline.parse_pqr(line + "\n", whitespace=whitespace)
+        return False
+    except (ValueError, IndexError, KeyError):
+        return True
 
 
 def run_walk(spec, res):
@@ -124,7 +133,17 @@ def run_walk(spec, res):
                 res.note(f"base run failed: {spec['ff']} {type(r.exc).__name__}")
                 return
             continue
-        pq = pipeline.parse_pqr(r.pqr_text, whitespace=state["whitespace"])
+        try:
+            pq = pipeline.parse_pqr(r.pqr_text, whitespace=state["whitespace"])
+        except (ValueError, IndexError, KeyError) as e:
+            # the reference tokenizer reads every layout of the unchanged writer; an unreadable file after flipping
+            # a formatting option means the option changed more than spacing
+            bad = next((ln for ln in r.pqr_text.split("\n") if ln.startswith(("ATOM", "HETATM")) and
+                        _unparsable(ln, state["whitespace"])), "")
+            res.violate(f"option/{change[0]}/output-unreadable", f"after flipping {change} the PQR records cannot be "
+                        f"tokenised ({type(e).__name__}: {e}); e.g. {bad!r}", opts=opts, ff=spec["ff"], seed=spec["seed"],
+                        w=spec["w"], variant=variant)
+            continue
         cur = (opts, pq)
         if prev is not None:
             res.count("pairs_compared")
